@@ -6,6 +6,7 @@ same history for the Lean heap model (`QV.Store`, driver ops `c11.run` / `c20.ru
 Tokens: contents of a tensor -> small integer by hashing its bytes with first-occurrence numbering
 (0 = all-zero bytes, 1,2,3 = the default X, Y, Z unitaries); metadata values -> tokens of their deep structure.
 """
+import contextlib
 import copy
 import os
 import pickle
@@ -50,6 +51,12 @@ OPTIMS = {
     "asgd": (torch.optim.ASGD, {"weight_decay": 0.1, "t0": 0}),
     "sgd_foreach": (torch.optim.SGD, {"foreach": True, "momentum": 0.9, "weight_decay": 0.05}),
     "adam_foreach": (torch.optim.Adam, {"foreach": True, "weight_decay": 0.1}),
+    # audit2-4 C20-1: classes / kernels of the installed torch (2.14) that `fit` can drive and the list above predates
+    "adafactor": (torch.optim.Adafactor, {}),                     # row/column-factored second moment, own relative step
+    "adafactor_wd": (torch.optim.Adafactor, {"weight_decay": 0.1}),
+    "sgd_fused": (torch.optim.SGD, {"fused": True, "momentum": 0.9, "weight_decay": 0.05}),
+    "adam_fused": (torch.optim.Adam, {"fused": True, "weight_decay": 0.1}),
+    "adamw_fused": (torch.optim.AdamW, {"fused": True}),
 }
 # learning-rate schedulers for `fit(scheduler=…, scheduler_args=…)` (op field "sched")
 SCHEDULERS = {
@@ -158,9 +165,11 @@ AF_OPS = ("construct", "constructFrom", "mkModule", "initModule", "train", "save
 def add_forms(plan, rng):
     """give every operation with options its argument-form seed (and a ModelSaver its period: a divisor of the epoch it is called with).
     An operation that repeats the previous one (save again with the very same arguments) repeats its forms."""
-    prev = None
+    prev = last_saver = None
     for op in plan:
         if op["t"] in AF_OPS and "af" not in op:
+            if op["t"] == "saverSave" and last_saver is not None and {k: v for k, v in last_saver.items() if k not in ("af", "period")} == op:
+                prev = last_saver   # the next period of the same ModelSaver (the state may have been trained in between)
             if prev is not None and {k: v for k, v in prev.items() if k not in ("af", "period")} == op:
                 op.update({k: prev[k] for k in ("af", "period") if k in prev})
             else:
@@ -169,6 +178,8 @@ def add_forms(plan, rng):
                     e = op["path"]
                     op["period"] = rng.choice([d for d in range(1, e + 1) if e % d == 0] if e else [1, 2, 3])
         prev = op
+        if op["t"] == "saverSave":
+            last_saver = op
     return plan
 
 
@@ -177,9 +188,18 @@ class Real:
 
     ctx = None   # set by run_history: input-distribution counters of the argument forms
 
-    def __init__(self, tseed):
-        self.tmp = tempfile.mkdtemp(prefix="qv_store_")
-        assert not self.tmp.startswith("/repo") and not self.tmp.startswith("/verif")
+    def __init__(self, tseed, rel=False):
+        # rel (case key "rel"): the caller writes every location as a RELATIVE path and changes his working directory between
+        # creating a ModelSaver and training with it (see `in_dir`, `loc_arg`); the files of the history still are <tmp>/file<p>.pt
+        self.rel = bool(rel)
+        self.base = tempfile.mkdtemp(prefix="qv_store_")
+        assert not self.base.startswith("/repo") and not self.base.startswith("/verif")
+        self.tmp = self.base
+        if self.rel:
+            self.tmp = os.path.join(self.base, "w")
+            self.elsewhere = os.path.join(self.base, "elsewhere", "deeper")
+            os.makedirs(self.tmp)
+            os.makedirs(self.elsewhere)
         self.tok = Tokens()
         self.gen = torch.Generator()
         self.gen.manual_seed(int(tseed))
@@ -197,10 +217,28 @@ class Real:
         self.events = []
 
     def close(self):
-        shutil.rmtree(self.tmp, ignore_errors=True)
+        shutil.rmtree(self.base, ignore_errors=True)
 
     def path(self, p):
         return os.path.join(self.tmp, f"file{p}.pt")
+
+    @contextlib.contextmanager
+    def in_dir(self, d):
+        """relative-path histories only: the caller's working directory is `d` while the body runs (restored afterwards)"""
+        if not self.rel:
+            yield
+            return
+        old = os.getcwd()
+        os.chdir(d)
+        try:
+            yield
+        finally:
+            os.chdir(old)
+
+    def loc_arg(self, p):
+        """the location of the history's file p as the caller writes it: an absolute path, or (relative-path histories) a path
+        relative to the working directory at the time of the call"""
+        return os.path.relpath(self.path(p)) if self.rel else self.path(p)
 
     # ------------------------------------------------------------ locations: a "file" of the history is (physical file, start position)
     # `location` of save / load / autoload is "str or file": an open file object stands for the data that starts at its CURRENT position
@@ -287,10 +325,12 @@ class Real:
         for s in sorted(self.models):
             st = self.models[s]
             kind = {PositiveWaveFunction: "pos", ComplexWaveFunction: "cplx", DensityMatrix: "dens"}[type(st)]
-            ud = st.__dict__.get("unitary_dict")
+            # read the way any caller (and the library's own save / load, `hasattr(self, "unitary_dict")`) reads them: by attribute access,
+            # whether the class keeps them as instance attributes, properties or forwards them to its amplitude network
+            ud = getattr(st, "unitary_dict", None)
             w["states"][str(s)] = {
-                "kind": kind, "nv": int(st.__dict__["num_visible"]), "nh": int(st.__dict__["num_hidden"]),
-                "na": (int(st.__dict__["num_aux"]) if "num_aux" in st.__dict__ else None),
+                "kind": kind, "nv": int(st.num_visible), "nh": int(st.num_hidden),
+                "na": (int(st.num_aux) if kind == "dens" and getattr(st, "num_aux", None) is not None else None),
                 "nets": [[n, self.obs_net(getattr(st, n))] for n in st.networks],
                 "ud": None if ud is None else self.fval("unitary_dict", ud)}
         for s in sorted(self.modules):
@@ -595,7 +635,8 @@ class Real:
                 if op.get("fobj"):
                     self.save_to_fileobj(op, md)
                 else:
-                    self.models[op["slot"]].save(self.path(op["path"]), md)
+                    with self.in_dir(self.elsewhere if self.rel else None):
+                        self.models[op["slot"]].save(self.loc_arg(op["path"]), md)
                     self.loc.pop(op["path"], None)
             elif t == "saverSave":
                 # ModelSaver is driven through its PUBLIC interface only: constructor + the callback event `on_epoch_end(nn_state, epoch)`
@@ -605,10 +646,17 @@ class Real:
                 # metadata_only as truthy / falsy objects, by keyword or all positionally
                 per, si = fm.i("ModelSaver period", op.get("period", 1), af.PERIOD_INT), fm.f("save_initial", False)
                 mo = fm.f("metadata_only", bool(op["metadataOnly"]))
+                # relative-path histories: the saver is CREATED while the working directory is <base> with folder_path "w" (= <base>/w = tmp),
+                # and USED (every period) after the caller has moved to another directory: the documented files are still <base>/w/file<epoch>.pt
+                folder = "w" if self.rel else self.tmp
                 if fm.pos("ModelSaver(period, folder_path, file_name, save_initial, metadata, metadata_only)"):
-                    mk = lambda md_arg: ModelSaver(per, self.tmp, "file{}.pt", si, md_arg, mo)  # noqa: E731
+                    mk0 = lambda md_arg: ModelSaver(per, folder, "file{}.pt", si, md_arg, mo)  # noqa: E731
                 else:
-                    mk = lambda md_arg: ModelSaver(per, self.tmp, "file{}.pt", save_initial=si, metadata=md_arg, metadata_only=mo)  # noqa: E731
+                    mk0 = lambda md_arg: ModelSaver(per, folder, "file{}.pt", save_initial=si, metadata=md_arg, metadata_only=mo)  # noqa: E731
+
+                def mk(md_arg):
+                    with self.in_dir(self.base):
+                        return mk0(md_arg)
                 if op["src"] == "dict":
                     key = ("dict", op["mdslot"], op["metadataOnly"], op.get("period", 1), op.get("af"))
                     if key not in self.savers or self.savers[key][1] is not self.metas[op["mdslot"]]:
@@ -620,27 +668,31 @@ class Real:
                     saver = mk(lambda s, e: copy.deepcopy(d))
                 else:
                     saver = mk(None)
-                saver.on_epoch_end(self.models[op["slot"]], op["path"])
+                with self.in_dir(self.elsewhere if self.rel else None):
+                    saver.on_epoch_end(self.models[op["slot"]], op["path"])
                 self.loc.pop(op["path"], None)   # ModelSaver writes to a path: the history's file is now that file, from its start
             elif t == "load":
                 if op.get("fobj") or self.must_be_fileobj(op["path"]):
                     with self.open_location(op["path"], op.get("io")) as fh:
                         self.models[op["slot"]].load(fh)
                 else:
-                    self.models[op["slot"]].load(self.path(op["path"]))
+                    with self.in_dir(self.elsewhere if self.rel else None):
+                        self.models[op["slot"]].load(self.loc_arg(op["path"]))
             elif t == "autoload":
                 m["rand"] = []
                 if op.get("fobj") or self.must_be_fileobj(op["path"]):
                     with self.open_location(op["path"], op.get("io")) as fh:
                         st = KINDS[op["kind"]].autoload(fh, gpu=fm.gpu())
                 else:
-                    loc, g = self.path(op["path"]), fm.gpu()
-                    st = KINDS[op["kind"]].autoload(loc, g) if fm.pos("autoload(location, gpu)") else KINDS[op["kind"]].autoload(loc, gpu=g)
+                    with self.in_dir(self.elsewhere if self.rel else None):
+                        loc, g = self.loc_arg(op["path"]), fm.gpu()
+                        st = KINDS[op["kind"]].autoload(loc, g) if fm.pos("autoload(location, gpu)") else KINDS[op["kind"]].autoload(loc, gpu=g)
                 self.models[op["slot"]] = st
             else:
                 raise AssertionError(t)
-        except (ValueError, TypeError, RuntimeError, KeyError, AttributeError, FileNotFoundError, ZeroDivisionError, IndexError,
-                pickle.UnpicklingError, EOFError) as e:
+        except AssertionError:
+            raise
+        except Exception as e:  # noqa: BLE001 - the operation is refused; WHICH exception class refuses it is nowhere compared (counters only)
             err = type(e).__name__
         return m, err
 
@@ -712,14 +764,15 @@ def tuplify(x):
 
 def snapshot_state(st):
     """independent deep snapshot of a state (for the oracles): nets -> name -> cloned tensor, unitary dict, sizes"""
-    ud = st.__dict__.get("unitary_dict") if "unitary_dict" in st.__dict__ else None
+    has_ud = hasattr(st, "unitary_dict")
+    ud = st.unitary_dict if has_ud else None
     if isinstance(ud, dict) and all(isinstance(v, torch.Tensor) for v in ud.values()):
         ud = {k: v.detach().clone() for k, v in ud.items()}
-    elif "unitary_dict" in st.__dict__:  # an attribute that is not a dictionary of tensors: a state of the object no history should reach
+    elif has_ud:  # an attribute that is not a dictionary of tensors: a state of the object no history should reach
         ud = {"<not a unitary dictionary>": repr(ud)[:120]}
     snap = {"nets": {n: {k: v.detach().clone() for k, v in getattr(st, n).named_parameters()} for n in st.networks},
             "ud": ud,
-            "arch": (int(st.__dict__["num_visible"]), int(st.__dict__["num_hidden"]), st.__dict__.get("num_aux")),
+            "arch": (int(st.num_visible), int(st.num_hidden), (int(st.num_aux) if isinstance(st, DensityMatrix) and getattr(st, "num_aux", None) is not None else None)),
             "kind": type(st).__name__}
     return snap
 
@@ -740,7 +793,7 @@ def admissible(real, op):
         return False
     if t == "write" and op["net"] not in real.models[op["slot"]].networks:
         return False
-    if t == "addUnitary" and "unitary_dict" not in real.models[op["slot"]].__dict__:
+    if t == "addUnitary" and not hasattr(real.models[op["slot"]], "unitary_dict"):
         return False
     if t == "save" and op["md"] is not None and op["md"] not in real.metas:
         return False
@@ -760,9 +813,15 @@ def admissible(real, op):
         u = f.get("unitary_dict") if isinstance(f, dict) else None
         if "unitary_dict" in (f if isinstance(f, dict) else {}) and not (isinstance(u, dict) and u and all(isinstance(x, torch.Tensor) for x in u.values())):
             return False
+    if t == "train" and str(op.get("opt", "")).startswith("adafactor"):
+        # torch.optim.Adafactor itself divides by the size of a parameter: it cannot drive a model with an EMPTY parameter (num_hidden = 0 /
+        # num_aux = 0 of a PurificationRBM) - ZeroDivisionError out of torch's step(); not an optimizer `fit` can drive for that model
+        st = real.models[op["slot"]]
+        if any(p.numel() == 0 for n in st.networks for p in getattr(st, n).parameters()):
+            return False
     if t == "train" and op.get("bases"):
         # the training data uses the bases X, Y and Z: a state whose dictionary lacks one of them cannot be trained on it (KeyError)
-        ud0 = real.models[op["slot"]].__dict__.get("unitary_dict")
+        ud0 = getattr(real.models[op["slot"]], "unitary_dict", None)
         if ud0 is not None and not all(b in ud0 for b in "XYZ"):
             return False
         # a ComplexWaveFunction whose parameters are ALL exactly zero (only reachable through a zero_weights=True module) is the uniform
@@ -782,8 +841,10 @@ def admissible(real, op):
 def run_history(ctx, case, drv_op, hooks, level_fn):
     """execute case["plan"] on the real objects (with the hooks' oracles), then on the model; compare after every op.
     hooks.before(real, op) -> pre ; hooks.after(real, op, pre, err, world) ; level_fn(op, err) -> 'property'|'aux'"""
-    real = Real(case["tseed"])
+    real = Real(case["tseed"], rel=case.get("rel"))
     real.ctx = ctx
+    if real.rel:
+        ctx.count("histories_with_relative_paths_and_chdir_between_saver_construction_and_use")
     try:
         mops, obs, kept = [], [], []
         for op in case["plan"]:
@@ -796,21 +857,36 @@ def run_history(ctx, case, drv_op, hooks, level_fn):
                 hooks.after(real, op, pre, err, w)
             except Exception as e:  # the implementation left the state in a shape the oracle cannot even inspect
                 ctx.oracle("property oracle could not be evaluated on the implementation's result", False,
-                           {"plan": case["plan"], "tseed": case["tseed"], "op": op}, detail={"exception": repr(e)[:300]},
+                           {"plan": case["plan"], "tseed": case["tseed"], "op": op, **({"rel": True} if case.get("rel") else {})}, detail={"exception": repr(e)[:300]},
                            sig=f"{op['t']}/oracle-crash")
             ctx.count(f"op={op['t']}")
             if mop is None:  # harness-only operation (the caller creating one of his own objects): no model step
                 continue
+            if getattr(hooks, "cut", False):
+                # the implementation did something no clause of the property constrains and the model cannot follow (e.g. it ACCEPTED a
+                # metadata dict with a non-string key): the history ends before this operation
+                ctx.count(f"history_cut_at_unconstrained_outcome:{op['t']}")
+                break
             mops.append(mop)
             kept.append(op)
             obs.append((err, w))
             ctx.count(f"err={err}")
+            if op["t"] == "load" and err is not None:
+                # what a REFUSED load leaves in the model's parameters (nothing, or the networks copied before the offending one) is not
+                # constrained by the property: the model is re-synchronised from the implementation (one external write per network)
+                st = real.models[op["slot"]]
+                for n in st.networks:
+                    sync = {"t": "write", "slot": op["slot"], "net": n, "sync": True}
+                    mops.append({**sync, "toks": real.all_tokens(getattr(st, n))})
+                    kept.append(sync)
+                    obs.append((None, w))
+                ctx.count("resync_after_refused_load")
         if ctx.driver is not None and mops:
             res = ctx.driver.call(drv_op, ops=mops)
             for k, ((err, w), mw) in enumerate(zip(obs, res)):
                 op = kept[k]
                 lvl = level_fn(op, err)
-                cs = {"plan": case["plan"], "tseed": case["tseed"], "step": k, "op": op}
+                cs = {"plan": case["plan"], "tseed": case["tseed"], "step": k, "op": op, **({"rel": True} if case.get("rel") else {})}
                 sig = f"{op['t']}"
                 # whether the operation is refused — not WHICH exception type refuses it (no property names one)
                 ctx.point(f"{op['t']}.refused", lvl if op["t"] in ("save", "saverSave", "train", "constructFrom") else "aux",
@@ -820,6 +896,8 @@ def run_history(ctx, case, drv_op, hooks, level_fn):
                 iw = tuplify(canon_world(w))
                 cm = tuplify(canon_world(mw))
                 for comp in ("states", "modules", "metas", "files"):
+                    if op["t"] == "load" and err is not None and comp in ("states", "modules"):
+                        continue   # parameters after a refused load: unconstrained (re-synchronised by the next steps)
                     ctx.point(f"{op['t']}.{comp}", lvl, iw[comp], cm[comp], cs, exact=True, sig=f"{sig}/{comp}",
                               theorem=hooks.theorem(op, comp))
         return kept, obs
